@@ -621,15 +621,21 @@ def rule_P2(ck, rule="P2"):
         want = tu.arg(fn, "bytes") + mk_mul_(tu.arg(fn, "n"), tu.obs(fn, "pre", "step"))
         for e in sm.events:
             if e.kind == "ALLOC" and _mentions(tu.obs(fn, "post", "begin"), e.res.single_atom()):
-                f = Facts([e.guard])
+                ok = True
                 d = e.args[1] - want
-                ok = f.nonneg(d) and f.nonneg(const(tu.pl.sea - 1) - d)
+                for f in case_split([e.args[1]], Facts([e.guard]), max_cases=16):
+                    if f.infeasible():
+                        continue
+                    d2 = simplify(d, f)
+                    if not (f.nonneg(d2) and f.nonneg(const(tu.pl.sea - 1) - d2)):
+                        ok = False
+                        break
                 if not ok and (has_unknown(d) or fm_imprecise(d)):
                     rec.broken("%s %s: reserve allocation size undecided: %s" % (tu.cfg, rule, show(d)[:200]))
                     continue
                 rec.ob(rule, ok, {"config": tu.cfg, "witness": fn, "obligation": "reserve requests n*stride + budget rounded up to the storage alignment", "bytes": show(e.args[1])[:160]})
                 if not ok:
-                    rec.finding(rule, "reserve:alloc-size-in-%s[%s]" % (tu.libfn(sm, e).split("@")[0], ck.catkey()),
+                    rec.finding(rule, "reserve:data-block-alloc-size[%s]" % ck.catkey(),
                                 "w_reserve allocates %s bytes; expected n*stride + budget = %s rounded up to %d (at %s)" % (
                                     show(e.args[1])[:200], show(want)[:120], tu.pl.sea, tu.where(sm, e)), config=tu.cfg)
     for fn in ("w_copy_ctor", "w_copy_assign", "w_move_assign"):
@@ -658,7 +664,7 @@ def rule_P2(ck, rule="P2"):
                     break
             rec.ob(rule, ok, {"config": tu.cfg, "witness": fn, "obligation": "data block allocation requests the source's footprint or a fresh vector's", "bytes": show(e.args[1])[:160]})
             if not ok:
-                rec.finding(rule, "%s:alloc-size-in-%s[%s]" % (fn.replace("w_", ""), tu.libfn(sm, e).split("@")[0], ck.catkey()),
+                rec.finding(rule, "%s:data-block-alloc-size[%s]" % (fn.replace("w_", ""), ck.catkey()),
                             "%s allocates a data block of %s bytes, which is neither %s (at %s)" % (
                                 fn, show(e.args[1])[:200], " nor ".join("%s = %s" % (nm, show(t)[:120]) for nm, t in allowed if t is not None), tu.where(sm, e)), config=tu.cfg)
 
